@@ -26,7 +26,7 @@ claimed = {
  'C04': dict(level='model_checking', engine=E3, ref='§4 C04',
    technique='stateless schedule enumeration (preemption-bounded DFS) of real goroutines under a controlled cooperative scheduler with the Go race detector live in every schedule; linearizability check of LRU histories',
    text='All schedules with at most k preemptions (k=2..3 quick, 3..5 thorough) of 2-3 real goroutines calling Execute/GetSchema on one open index (3 cache kinds x 2 open modes; also on a cold index opened per execution) or Get/Put on one LRUCache, with scheduling points at every sync/atomic operation of updog and at the locks inside bbolt; per schedule: no race report, panic or deadlock, every result equals the sequential one, LRU structure consistent, direct cache histories linearizable. Supplementary (free-running, stated as not exhaustive): the real server built with -race under batches and concurrent clients.',
-   note='Scheduling points at sync/atomic operations, channel operations, select statements and file-system calls of updog packages (rewritten at build time) and at bbolt's internal locks; races in between are caught by the race detector, which sees only the program\'s own happens-before edges. gRPC-level concurrency is not enumerated.'),
+   note='Scheduling points at sync/atomic operations, channel operations, select statements and file-system calls of updog packages (rewritten at build time) and at the internal locks of bbolt; races in between are caught by the race detector, which sees only the program\'s own happens-before edges. gRPC-level concurrency is not enumerated.'),
  'C05': dict(level='exploration', engine=E1 + ' + ' + E2, ref='§4 C05',
    technique='bounded-exhaustive enumeration of AddRow sequences x 3 writer paths x 2 open modes against the model (ids, schema, universe, exact membership via a unique column) plus BFS over open/close/probe histories',
    text='Every dataset of the small-scope product (with and without a unique id column) and of the batch-boundary families (0..2500/4097 rows, >1000 distinct values in one and two columns, exact multiples of the 1000-value batch, values on more than 4096 rows, several outputs of one writer) is written by all writer paths and probed completely; reopen histories over {open, open-preload, close, probe} are explored breadth-first on file copies.',
